@@ -5,9 +5,9 @@
     * `uint8_t` locals are reduced `% 256` where C converts,
     * the `uint32_t` mask / partial value are reduced `% 2^32`,
     * the `uint64_t` accumulator is reduced `% 2^64`,
-    * `*(uint32_t*)p` is a typed 4-byte access whose value depends on the host byte
-      order `e`; `Avtp_BeToCpu32` / `Avtp_CpuToBe32` are the helpers the header selects
-      for that host.
+    * the quadlet is moved between the PDU and a `uint32_t` object with `memcpy` (a 4-byte
+      access of alignment 1); the value of that object depends on the host byte order `e`;
+      `Avtp_BeToCpu32` / `Avtp_CpuToBe32` are the helpers the header selects for that host.
   Every memory access is appended to an access log (address, width, whether it is made
   through a typed `uintN_t*` lvalue or bytewise, read or write).
   Tie to the C text: correspondence check (harness/fields.c vs the driver).
@@ -115,7 +115,7 @@ def getLoop (e : Endian) (d : Desc) (m : Mem) (pdu : Nat) :
       let part := (host &&& mask) >>> qshift
       let res' := res ||| ((part <<< (d.bits - pb - qbits)) % 2 ^ 64)
       getLoop e d m pdu fuel ((qo + 1) % 256) ((pb + qbits) % 256) res'
-        (log ++ [⟨addr, 4, 4, false⟩])
+        (log ++ [⟨addr, 4, 1, false⟩])
     else (res, log)
 
 /-- Number of loop iterations that always suffices for a valid descriptor
@@ -157,7 +157,7 @@ def setLoop (e : Endian) (d : Desc) (pdu value : Nat) :
       let host' := (host &&& (mask ^^^ (2 ^ 32 - 1))) ||| (((part <<< qshift) % 2 ^ 32) &&& mask)
       let m' := store e 4 m addr (beCpu32 e host')
       setLoop e d pdu value fuel ((qo + 1) % 256) ((pb + qbits) % 256) m'
-        (log ++ [⟨addr, 4, 4, false⟩, ⟨addr, 4, 4, true⟩])
+        (log ++ [⟨addr, 4, 1, false⟩, ⟨addr, 4, 1, true⟩])
     else (m, log)
 
 /-- `Avtp_SetField(fieldDescriptors, numFields, pdu, field, value)`, `value < 2^64`. -/
